@@ -70,7 +70,7 @@ reg(
     design_ref="DESIGN.md §5 C09",
     rule=("a case = (pool of 2-3 templates x 2-3 data objects over one partial set, compilation policy eager|lazy, history r1..rk). "
           "Every pool also holds a designed template that fails midway at a point chosen by the data (inside a capture / an ifchanged body after text was written, inside a loop after stateful tags ran, while a break is pending in a tablerow, inside an included partial) and includes/renders a partial whose name comes from the data. All histories of length <= 3 over the pool's (template, data) pairs are enumerated, lengths 4-6 are sampled. Every call's result "
-          "(output, or 'error') must equal the result of the same (template, data) on a fresh parser. distinct = distinct (pool, policy, history); "
+          "(the output, or the failure identified by an order-insensitive fingerprint of its whole message) must equal the result of the same (template, data) on a fresh parser; the pool also holds partials `pg0` and a differently-bodied `pg0.liquid`, selected by the data. distinct = distinct (pool, policy, history); "
           "non-trivial = history length >= 2 (a single call cannot observe leaked state)."),
     profiles={"quick": ["checked"], "thorough": ["checked"]},
     floor={"quick": 20000, "thorough": 1000000},
@@ -110,12 +110,12 @@ reg(
     technique="runtime monitoring: differential monitor across the three compilation policies, with an instrumented PartialSource recording which partial names an execution actually requested",
     design_ref="DESIGN.md §5 C19",
     rule=("a case = (main template, 0-4 partials some broken, some stored under '<name>.liquid' (alone or next to the bare name), some with an empty source, a possibly missing name, data, 1-3 renders per parser). Oracle: build() is Ok under "
-          "all three policies; results agree (same output or all fail); repeated renders equal the first; if the instrumented source saw no lookup "
-          "of a broken/missing name, every policy must equal the scenario with the broken partials made healthy. distinct = distinct scenario by "
+          "all three policies; results agree across policies (same output, or failures with the same first line); repeated renders on one parser equal the first (failures by whole-message fingerprint); if the instrumented source saw no lookup "
+          "of a broken partial, every policy must give exactly what the same policy gives with the broken partials made healthy (output, or failure by whole-message fingerprint). distinct = distinct scenario by "
           "content hash; non-trivial = the main template contains an include or render tag."),
     profiles={"quick": ["checked"], "thorough": ["checked"]},
     floor={"quick": 10000, "thorough": 500000},
-    assumptions=["sources list their names truthfully (InMemorySource)", "error texts across policies are not compared, only success/failure"],
+    assumptions=["sources list their names truthfully (InMemorySource)", "across policies only the output or the first line of the error is compared ('fail alike'); whole messages are compared within one policy"],
     level_text=("Differential execution of generated scenarios under every policy. Right level: the property quantifies over configurations; "
                 "the suite never builds two policies for the same scenario."),
     level_note="'Reached' is what the on-demand run's instrumented source observed.",
@@ -128,7 +128,7 @@ reg(
     technique="runtime monitoring under stress: barrier-released threads on shared Arc<Parser>/Arc<Template>, per-call differential oracle against stand-alone results, instrumented PartialSource (delay injection inside the lazy store's critical section) and PartialStore (enter/leave event log); ThreadSanitizer and Miri in the thorough tier",
     design_ref="DESIGN.md §5 C20",
     rule=("a case = one concurrent round: pool (3 templates incl. one full of ifchanged/capture bodies, 2 data objects, partials incl. a broken one, a missing name and two selected by a data-dependent name), 2-16 threads released by a "
-          "barrier, 10-50 seeded calls each (render, render_to, parse+render) on shared objects, lazy or eager policy, delay mode in "
+          "barrier, 10-50 seeded calls each (Template::render, render_to, render_to+render, parse+render) on shared objects, lazy or eager policy, delay mode in "
           "{none, yield, sleep 50us, sleep 500us} injected inside PartialSource::try_get, optional start skew. Every call's result must equal "
           "its stand-alone sequential result; afterwards the parser must still work sequentially. distinct = distinct round by content hash; "
           "non-trivial = at least one call interval overlapped a call of another thread (from the recorded call/return stamps)."),
@@ -153,7 +153,7 @@ reg(
     design_ref="DESIGN.md §5 C18",
     rule=("a case = (start runtime with/without caller data, operation sequence) over 28 operations {push plain d, push sandboxed d (d in the 9 maps "
           "over {x,y} x {absent, scalar, object}), push global layer, pop, assign-global k v, set-counter k v}; all sequences up to the stated length "
-          "(pop on an empty stack pruned) are enumerated; after each sequence get and try_get for 6 paths of length 1-2, roots() and get_index are "
+          "(pop on an empty stack pruned) are enumerated; after each sequence get and try_get for 8 paths of length 1-2 (incl. the never-defined names size and first), roots() and get_index are "
           "observed and compared with the model. distinct = distinct (start, sequence); non-trivial = the sequence contains at least one push."),
     exhaustive=True,
     profiles={"quick": ["checked"], "thorough": ["checked"]},
@@ -202,7 +202,7 @@ reg(
     rule=("a case = ordered pair (a, b) from a pool of 68 values (nil, booleans, integers incl. 2^53 and the i64 bounds, floats incl. +-0, infinities and NaN, "
           "strings, dates, date-times of one instant in different offsets, empty/blank markers, arrays and objects nested two deep, multi-key objects "
           "written in different key orders). Each pair is compared R times (quick 20, thorough 200) on values rebuilt independently (fresh HashMaps, shuffled "
-          "insertion order); every worker process evaluates the whole matrix and the orchestrator requires the 16 matrices to be identical. "
+          "insertion order) through Value, ValueViewCmp, ValueCow (borrowed/owned, against ValueCow, Value, ValueViewCmp and bare i64/bool/&str) and through if/case templates; every worker process evaluates the whole matrix and the orchestrator requires the 16 matrices to be identical. "
           "distinct = distinct ordered pair (counted once, by shard 0, since all shards deliberately repeat the same matrix); non-trivial = a and b differ by "
           "strict dump, or a is composite."),
     exhaustive=True,
@@ -261,7 +261,7 @@ reg(
     level="exploration",
     technique="runtime monitoring against a structural prediction: templates are generated as item lists with independent trim markers on every delimiter side and the rendered output is compared with pure string algebra over that structure; comment side-effect probe",
     design_ref="DESIGN.md §5 C03",
-    rule=("cases: (1) exhaustive single-item core: every whitespace run of length 0-2 over {space, tab, LF, CR} (plus CRLF/NBSP/U+3000 runs) on the left x on the right x all 16 marker combinations x "
+    rule=("cases: (1) exhaustive single-item core: every whitespace run of length 0-2 over {space, tab, LF, CR} (plus CRLF/NBSP/U+3000 runs; text atoms include U+FEFF, U+200B, U+2028, U+0085, U+000B, which are text, not trimmable) on the left x on the right x all 16 marker combinations x "
           "item kind {if, for, capture+print, raw, comment, output, assign} (x 4 inner paddings in the thorough tier); (2) random multi-item templates nested to depth 2 with raw bodies that look like markup "
           "and comment bodies with side effects, followed by a probe that the variables and counters touched inside comments are unchanged; (3) markup-free random texts must render to themselves; "
           "(4) a labelled sub-family of quote characters pairing across the closing tag of raw/comment. distinct = distinct template text; non-trivial = a delimiter is adjacent to a non-empty text segment "
@@ -304,7 +304,7 @@ reg(
     design_ref="DESIGN.md §5 C16",
     rule=("a case = one input in one group (escape: 1 render; escape_once: once and twice; url: encode, encode|decode, decode; strip_html: 1 render). Inputs: all strings of length <= 5 (quick 4) over "
           "{<, >, &, \", ', ;, #, a, l, t, m, p, space, e-acute} and all sequences of <= 4 (quick 3) entity tokens; all strings of length <= 4 over {%, +, 2, F, f, space, /, e-acute, emoji}; all strings of length <= 6 (quick 5) over "
-          "{<, >, !, -, /, s, c, r, i, p, t, a}; random texts <= 200 characters mixed with entity/tag/percent tokens (incl. overlong and surrogate percent sequences). distinct = distinct (group, input); "
+          "{<, >, !, -, /, s, c, r, i, p, t, a} (each also split on 'a' into an array and handed to strip_html: what is printed must be tag-free too); random texts <= 200 characters mixed with entity/tag/percent tokens (incl. overlong and surrogate percent sequences). distinct = distinct (group, input); "
           "non-trivial = the input contains a character the group treats specially."),
     profiles={"quick": ["checked"], "thorough": ["checked"]},
     floor={"quick": 300000, "thorough": 5000000},
@@ -377,7 +377,7 @@ reg(
     design_ref="DESIGN.md §5 C06",
     rule=("cases: (1) every operator (==, !=, <>, <, >, <=, >=, contains) x every ordered pair of a 32-value pool (nil, booleans, ints, floats equal to ints, numeric and other strings, blank strings, arrays, objects, empty/blank markers), each side as literal and through a variable; bare truthiness of every value under if and unless; "
           "(2) if/elsif chains of 1..4 arms over all assignments of {true, false, undefined}, with and without else; unless; and/or chains of length <= 4 of the shape or* and*, all truth assignments; "
-          "(3) case/when with 1..4 arms, value lists with duplicates and overlaps, ',' and 'or' separators, target as literal and variable; (4) random nestings of if/unless/case with comparisons, contains, empty/blank tests and undefined names; (5) bare member tests where a loop variable shadows an outer object that has the member, and bare tests of undefined names equal to the special names size/first/last/forloop. "
+          "(3) case/when with 1..4 arms, value lists with duplicates and overlaps, ',' and 'or' separators, target as literal and variable; (4) random nestings of if/unless/case with comparisons, contains, empty/blank tests and undefined names; (5) bare member tests where a loop variable shadows an outer object that has the member, and bare tests of undefined names equal to the special names size/first/last/forloop; (6) re-evaluation: every literal-vs-variable comparison compiled once and rendered against every pool value, and evaluated inside a loop over the values, must answer what a freshly parsed template answers for that value alone. "
           "distinct = distinct (template, data); non-trivial = operands differ or are not plain scalars / at least two arms or atoms."),
     exhaustive=True,
     profiles={"quick": ["checked"], "thorough": ["checked"]},
@@ -395,7 +395,7 @@ reg(
     level="exploration",
     technique="runtime monitoring against a reference lookup: every path of length 1..4 over nested data, with every index in [-len-2, len+1] and special/colliding keys, written in dot/bracket literal form, through variables and through nested paths; literals parsed back structurally through the dump plugin",
     design_ref="DESIGN.md §5 C07",
-    rule=("cases: (paths) two hand-built and 30 (thorough 400) generated nested data roots (arrays of length 0..5 inside objects inside arrays, own keys named size/first/last, integer-like, non-ASCII and spaced keys, non-ASCII strings); "
+    rule=("cases: (paths) two hand-built and 30 (thorough 400) generated nested data roots (arrays of length 0..5 inside objects inside arrays, own keys named size/first/last, integer-like keys in canonical and non-canonical spelling ('7', '007', '+1', '01'), non-ASCII and spaced keys, non-ASCII strings); "
           "from every reachable value every candidate step is tried (array: every integer in [-len-2, len+1], first, last, size, an absent name; object: own keys, size, absent and integer-like keys; strings: size, absent, 0), to depth 4, "
           "each path written with literal indices (dot and bracket forms), with indices supplied by variables, by nested paths r[ix.p0]..., and with the root re-assigned in the template over a decoy caller datum that has more members everywhere; expected = the reference step function; a missing step must make the output tag fail. "
           "(literals) i64 boundaries and a sweep of 2*10^3 (thorough 2*10^4) integers with +, - and leading zeros, decimals with 1..6 fraction digits, strings in both quote styles over a hostile alphabet, true/false/nil/null, out-of-range integers. "
@@ -432,9 +432,9 @@ reg(
     level="exploration",
     technique="runtime monitoring against a reference interpreter: generated caller + 1..3 partials (nested, no recursion) using every include/render argument form, stateful constructs and interrupts, with state probes before/after every tag and inside the partials; missing and broken partials on executed and dead paths",
     design_ref="DESIGN.md §5 C08",
-    rule=("cases: eleven fixed scenarios (one per clause of the statement, plus one include/render tag whose partial name changes from pass to pass) plus generated scenarios: caller and 1..3 partials over names {a,b,c} built from assign, capture, increment/decrement, cycle, ifchanged, for with break/continue, if, "
+    rule=("cases: twelve fixed scenarios (one per clause of the statement, one include/render tag whose partial name changes from pass to pass, and a render-for inside a caller loop whose partial breaks/continues at its top level and is also handed an argument named forloop) plus generated scenarios: caller and 1..3 partials over names {a,b,c} built from assign, capture, increment/decrement, cycle, ifchanged, for with break/continue, if, "
           "include (with/without arguments) and render (plain arguments, with..as, for..as), partial names literal and through variables, break/continue at the top level of partials, a missing name and a syntactically broken partial on executed and on dead paths. "
-          "The output trace (probes print every name's try_get/get/roots/counter at every point) must equal the reference interpreter's, and errors must occur exactly where the reference says. distinct = distinct scenario; "
+          "The output trace (probes print every name's try_get/get/roots/counter at every point) must equal the reference interpreter's, and errors must occur exactly where the reference says. Under render-for a top-level break ends the remaining elements and a continue the current one, neither reaching the caller; left unspecified (counted, not compared): interrupts outside any loop in the main template, an alias also given as an argument, and the two situations in which the moment of evaluating render-for arguments matters. distinct = distinct scenario; "
           "non-trivial = the scenario is inside the specified behaviour (unspecified ones are counted separately and not compared)."),
     profiles={"quick": ["checked"], "thorough": ["checked"]},
     floor={"quick": 30000, "thorough": 500000},
